@@ -119,6 +119,8 @@ def run(ctx):
     base += [job(D, "lin", "spec", "sphere_corner", s, 90) for D in (1, 2) for s in seeds]
     # small logger caches: the log outgrows its cache repeatedly while the GP keeps selecting from it
     base += [job(D, "lin", m, "sphere_in", seeds[0], 90, opts={"cache_size": cs}) for D in (1, 2) for m in ("det", "spec") for cs in (8, 30)]
+    # an initial design larger than n_train_max (50 + 10 D): the size limit applies to the very first fit as well
+    base += [job(1, "lin", m, "sphere_in", seeds[0], 100, opts={"fun_eval_start": 64}) for m in ("det", "spec")]
     st = explore(base, ["ans", "noise"], 0, sink, name="runs/b0")
     nz = [job(D, "lin", m, t, seeds[0], 62) for D in (1, 2) for m, t in (("spec", "sphere_corner"), ("decl", "sphere_in"))]
     st = explore(nz, ["noise"], 1, sink, stats=st, name="spec-corner/noise-b1", pos_ok=lambda k, p, r: p >= 30 and p % (3 if q else 1) == 0)
